@@ -318,7 +318,14 @@ func (s *EMTState) edgeMultiComputeRecordSpecs(raw []RawType, frameIndexOfraw0 F
 		if !x.triggerFound {
 			break
 		}
-		t, u, v = u, v, FrameIndex(x.triggerInd)+frameIndexOfraw0
+		// The kink model can move the trigger one sample earlier than the first sample searched after a
+		// reset (index maxLookback). Such a trigger has fewer than npre samples before it, and cutting its
+		// record would slice before raw[0]: do not accept a position below the look-back limit.
+		triggerInd := x.triggerInd
+		if triggerInd < maxLookback {
+			triggerInd = maxLookback
+		}
+		t, u, v = u, v, FrameIndex(triggerInd)+frameIndexOfraw0
 		recordSpec, valid := edgeMultiShouldRecord(t, u, v, s.npre, s.nsamp, s.mode)
 		if valid {
 			recordSpecs = append(recordSpecs, recordSpec)
